@@ -314,6 +314,16 @@ theorem stepCmd_rest (sc : Scripts) {w : World} (h : Rest w) (c : Cmd) : Rest (s
   | gop g self op =>
     have h1 : Rest { w with giver := liveGiver w (some g) } := h.congr rfl rfl rfl rfl
     exact (applyOp_rest h1 self op).congr rfl rfl rfl rfl
+  | setUnique n =>
+    -- the hook only raises `unique`: every serial stays below it
+    show Rest (if n > w.unique then { w with unique := n } else w)
+    split
+    · rename_i hn
+      refine ⟨⟨h.1.cot_le, h.1.now_pos, h.1.fresh, h.1.sorted, ?_⟩, h.2⟩
+      intro s p hp
+      have e := h.1.ent s p hp
+      exact ⟨e.slot, e.due, e.notPast, e.handle, e.serialPos, by have := e.serial; show p.2.serial ≤ n; omega⟩
+    · exact h
 
 /-- **`WheelInv` (and `Quiet`) hold after every history** (clause 2c) -/
 theorem runCmds_rest (sc : Scripts) {w : World} (h : Rest w) (cs : List Cmd) : Rest (runCmds sc w cs) := by
